@@ -320,7 +320,7 @@ func runC12(c *run.Ctx) {
 		"(hand-written reflection schema with methods; generated schemas over registered dynamic struct types). Build: -race (implies checkptr). Monitors: Go race detector log (any report is a violation, " +
 		"deduplicated by the pair of innermost ggql frames), per-request response equality with a sequentially used separate root, stall monitor with two goroutine dumps. The verifYield hook (PRNG: nothing/Gosched/" +
 		"1-50us sleep) widens the windows at the lazy-registration sites. A round is non-trivial when >=2 goroutines ran >=2 distinct requests; distinct by (round seed)"
-	rounds := c.N(240, 6000)
+	rounds := c.N(240, 30000)
 	procs := c.N(8, 16)
 	work := filepath.Join(run.VerifDir(), ".work", fmt.Sprintf("c12-%d", os.Getpid()))
 	_ = os.MkdirAll(work, 0o755)
